@@ -4,43 +4,6 @@ From RRE Require Import Base.Sx Base.Float Base.Num Model.ExprShape Model.Forwar
 From Coq Require Import Lia.
 Open Scope Z_scope.
 
-(** ---------- printing a tree; its skeleton ---------- *)
-Definition gcompound (g : gcond) : bool := match g with GAnd2 _ _ | GOr2 _ _ => true | _ => false end.
-Fixpoint pr_g (g : gcond) : str :=
-  match g with
-  | GC c => pr_cond c
-  | GParen a => 40 :: pr_g a ++ [41]
-  | GAnd2 a b => (if gcompound a then 40 :: pr_g a ++ [41] else pr_g a) ++ [32; 38; 38; 32] ++ (if gcompound b then 40 :: pr_g b ++ [41] else pr_g b)
-  | GOr2 a b => (if gcompound a then 40 :: pr_g a ++ [41] else pr_g a) ++ [32; 124; 124; 32] ++ (if gcompound b then 40 :: pr_g b ++ [41] else pr_g b)
-  | GNot2 a => 33 :: 40 :: pr_g a ++ [41]
-  end.
-Fixpoint skel (g : gcond) : ptree :=
-  match g with
-  | GC c => PLeaf (pr_cond c)
-  | GParen a => skel a
-  | GAnd2 a b => PAnd (skel a) (skel b)
-  | GOr2 a b => POr (skel a) (skel b)
-  | GNot2 a => PNot (skel a)
-  end.
-
-(** what a leaf text must be like: not blank at either end, not starting with ( or !, and neutral for the
-    splitter and for the parenthesis counter (it copies through both, at any depth) *)
-Definition bal_inert (t : str) : Prop :=
-  forall rest n, 0 <= n -> balanced_q (t ++ rest) n None = balanced_q rest n None.
-Record leaf_ok (t : str) : Prop := {
-  lf_first : exists c r, t = c :: r /\ ws_unicode c = false /\ (c =? 40) = false /\ (c =? 33) = false;
-  lf_last : exists c r, rev t = c :: r /\ ws_unicode c = false;
-  lf_and : inert 38 t;
-  lf_or : inert 124 t;
-  lf_bal : bal_inert t }.
-
-Fixpoint wf_g (g : gcond) : Prop :=
-  match g with
-  | GC c => leaf_ok (pr_cond c)
-  | GParen a | GNot2 a => wf_g a
-  | GAnd2 a b | GOr2 a b => wf_g a /\ wf_g b
-  end.
-
 (** ---------- neutrality of printed trees ---------- *)
 Lemma bal_inert_app a b : bal_inert a -> bal_inert b -> bal_inert (a ++ b).
 Proof. intros Ha Hb rest n Hn. rewrite <- app_assoc. rewrite Ha by exact Hn. apply Hb. exact Hn. Qed.
